@@ -32,20 +32,23 @@ use std::collections::HashMap;
 use std::sync::Mutex;
 
 /// Copies of the pre-state-transform MIR of coroutine bodies, taken by the overridden
-/// `mir_drops_elaborated_and_const_checked` provider before anything can steal it.
+/// `mir_promoted` provider before anything can steal it.
 static PRE: Mutex<Option<HashMap<u32, usize>>> = Mutex::new(None);
 static ORIG: Mutex<Option<usize>> = Mutex::new(None);
 
-type Prov = for<'tcx> fn(TyCtxt<'tcx>, LocalDefId) -> &'tcx rustc_data_structures::steal::Steal<Body<'tcx>>;
+type Ret<'tcx> = (
+    &'tcx rustc_data_structures::steal::Steal<Body<'tcx>>,
+    &'tcx rustc_data_structures::steal::Steal<
+        rustc_index::IndexVec<rustc_middle::mir::Promoted, Body<'tcx>>,
+    >,
+);
+type Prov = for<'tcx> fn(TyCtxt<'tcx>, LocalDefId) -> Ret<'tcx>;
 
-fn my_drops_elaborated<'tcx>(
-    tcx: TyCtxt<'tcx>,
-    def: LocalDefId,
-) -> &'tcx rustc_data_structures::steal::Steal<Body<'tcx>> {
+fn my_mir_promoted<'tcx>(tcx: TyCtxt<'tcx>, def: LocalDefId) -> Ret<'tcx> {
     let orig: Prov = unsafe { std::mem::transmute::<usize, Prov>(ORIG.lock().unwrap().unwrap()) };
     let r = orig(tcx, def);
     if tcx.is_coroutine(def.to_def_id()) {
-        let copy: Body<'tcx> = r.borrow().clone();
+        let copy: Body<'tcx> = r.0.borrow().clone();
         let leaked: *mut Body<'tcx> = Box::into_raw(Box::new(copy));
         let mut g = PRE.lock().unwrap();
         g.get_or_insert_with(HashMap::new)
@@ -65,9 +68,9 @@ struct Cb;
 impl Callbacks for Cb {
     fn config(&mut self, config: &mut rustc_interface::interface::Config) {
         config.override_queries = Some(|_sess, providers| {
-            let orig = providers.queries.mir_drops_elaborated_and_const_checked;
+            let orig = providers.queries.mir_promoted;
             *ORIG.lock().unwrap() = Some(orig as usize);
-            providers.queries.mir_drops_elaborated_and_const_checked = my_drops_elaborated;
+            providers.queries.mir_promoted = my_mir_promoted;
         });
     }
 
